@@ -1,8 +1,8 @@
 SPECIFICATION Spec
 CONSTANTS
-  MaxM = 7
+  MaxM = 10
   K = 3
   Thrs = {1, 2, 3, 8}
-  EmitOps = TRUE
-INVARIANT Inv Emit
+  EmitOps = FALSE
+INVARIANT Inv
 CHECK_DEADLOCK FALSE
